@@ -20,7 +20,7 @@ RULE = ("cases = all token sequences <= L over the splitter alphabet, random Uni
         "derivations, size-scaled families; non-trivial = the parse produced >= 1 failed block, or the text has >= 1000 lines, "
         "or brace nesting >= 100; distinct = distinct text (families: name and size)")
 ASSUMPTIONS = ["CPU budget = 20 CPU-seconds + 1 s per 2000 characters per parse (process CPU time, ITIMER_VIRTUAL)", "step budget = 400 repository function entries per input character + 20000", "sys.monitoring RAISE events attribute BlockAbortedException to its origin frame"]
-MIN = {"growth_monitor": (30, 30), "escape_parse": (100000, 1000000), "escape_write": (100000, 1000000), 
+MIN = {"escape_write_with_format": (50000, 500000), "growth_monitor": (30, 30), "escape_parse": (100000, 1000000), "escape_write": (100000, 1000000), 
        "failed_block_shape": (10000, 100000), "size_family": (40, 80)}
 
 ALPHA = ["@a", "@comment", "@string", "@preamble", "{", "}", '"', ",", "=", "\n", " ", "\\", "x", "#"]
@@ -383,6 +383,19 @@ def check(case, ctx):
         ctx.ran()
         if st != "ok" or w2 != w1:
             out.append(Violation("write-unstable", f"C01:write-unstable:{tag}", dict(text=text[:300])))
+    if len(text) < 5000 and ctx.cases % 3 == 0:
+        # write_string under a non-default BibtexFormat (seed C01-m: aligning the continuation lines of a multi-line value to
+        # the value column raised when there were none with text): no option value may make the writer raise
+        from .. import build
+        fs = [["", "auto", False, "\n\n", None], ["\t", 10, True, "\n", None], ["  ", 40, True, "", None], ["", 1, False, "\n\n\n", "% {n} lines failed"],
+              ["    ", 0, True, "\n", None], [" ", "auto", True, "\r\n", None]][(ctx.cases // 3) % 6]
+        st, w3 = sp.escape(lambda: bibtexparser.write_string(lib, bibtex_format=build.fmt(fs)))
+        ctx.ran()
+        ctx.mon("escape_write_with_format")
+        if st == "raise":
+            out.append(Violation("write-raised", f"C01:write-raised:{w3.split(':')[0]}:{tag}:with-format", dict(error=w3, text=text[:300], fmt=fs)))
+        elif not isinstance(w3, str):
+            out.append(Violation("write-not-str", f"C01:write-not-str:{tag}:with-format", dict(got=type(w3).__name__)))
     nfail = len(lib.failed_blocks)
     lines = text.count("\n") + 1
     ctx.state(f"{tag}:failed={min(nfail, 3)}:depth={min(depth, 4)}")
